@@ -110,4 +110,51 @@ CHECKS = {
                      "oracle over entitlement histories",
         "design_ref": "DESIGN.md section 3, C02",
     },
+    "C03": {
+        "bin": "c03",
+        "level": "exploration",
+        "quick": {"shards": 12, "budget_s": 75, "min_evaluations": 300},
+        "thorough": {"shards": 14, "budget_s": 900, "min_evaluations": 3000},
+        "rule": (
+            "evaluations = observations (RP walk after every operation + "
+            "queue quiescence) at which the cumulative ledger of every "
+            "(issuer key, serial, uri, hash, notAfter, kind) ever seen is "
+            "re-classified: an entry that is no longer listed by its "
+            "issuer's manifest must be absent from the repository and, "
+            "while its issuing key still publishes a CRL and it is "
+            "unexpired, on that CRL; at caught-up points every published "
+            "CA certificate must be for a key its holder still has "
+            "(acknowledged revocations took effect). Histories: 4 boundary "
+            "scripts (mapped class name + child key roll; objects replaced "
+            "several times incl. aggregated ROAs and ASPAs; suspend, "
+            "resource loss, deletion of a CA with children; removal of one "
+            "of two parents, router keys, child removal) + random histories "
+            "weighted towards removals, rolls, renewals. distinct_nontrivial "
+            "= distinct (kind of superseded object, operation kind after "
+            "which it was first found superseded and on the CRL) pairs; "
+            "the counters give the number of superseded entries found on "
+            "CRLs."
+        ),
+        "assumptions": COMMON_ASSUMPTIONS + [RP_ASSUMPTION, 
+            "objects are only compared while their issuing key still has a "
+            "valid publication point; expired objects are not produced "
+            "(no clock shift in this check)"],
+        "level_text": (
+            "Runtime monitoring with a cumulative ledger: every object the "
+            "relying-party walk ever saw is followed for the rest of the "
+            "history; once it stops being current it must be withdrawn "
+            "after the next synchronisation and stay on its issuer's CRL. "
+            "The oracle reads manifests/CRLs itself; CRL membership is "
+            "checked at every later observation, not only at the step of "
+            "replacement."
+        ),
+        "level_note": (
+            "Trusted: rpki-rs decoding of manifests, CRLs, certificates and "
+            "signed objects; 'current' is defined by the issuer's manifest "
+            "listing the same uri+hash."
+        ),
+        "technique": "runtime monitoring: cumulative serial ledger vs CRLs "
+                     "and manifests over revocation-heavy histories",
+        "design_ref": "DESIGN.md section 3, C03",
+    },
 }
